@@ -14,7 +14,7 @@ TYPES = ['Mean', 'Variance', 'Skewness', 'Kurtosis', 'Min', 'Max', 'Moments4', '
 PROBES = ['ProbeMean', 'ProbeVariance', 'ProbeSkewness', 'ProbeKurtosis', 'ProbeMin', 'ProbeMax', 'ProbeMoments4', 'ProbeM6']
 RULE = ('(1) result monitor: f64 and &f64 parallel iterators are collected into Mean, Variance, Skewness, Kurtosis, Min, Max, '
         'Moments4 and a define_moments! order-6 type inside explicit ThreadPoolBuilder pools of 1,2,3,4,8,16 threads, with '
-        'with_min_len / with_max_len in {unset,1,2,3,7,64,n}, optionally through a filter stage that drops a pseudo-random third of the items (so that fold leaves can be empty), with a seeded map stage that yields / spins on a pseudo-random subset '
+        'with_min_len / with_max_len in {unset,1,2,3,7,64,n}, from a slice or from iter().par_bridge() (an unindexed source that hands items out in arbitrary order), optionally through a filter stage that drops a pseudo-random third of the items (so that fold leaves can be empty), with a seeded map stage that yields / spins on a pseudo-random subset '
         'of items (delay injection between the items of a fold), each configuration repeated; len must be exact, min / max exact, '
         'every other statistic inside the section-2 envelope of the exact statistics. (2) schedule monitor: Probe<T> wraps the real '
         'estimator and is given the crate\'s own exported impl_from_par_iterator!; it checks online that every fold leaf absorbs a '
@@ -183,7 +183,7 @@ def configs(rng, n):
     hi = rng.choice(lims)
     if lo and hi and hi < lo:
         lo, hi = hi, lo
-    mode = rng.choice(['v', 'r'])
+    mode = rng.choice(['v', 'r', 'v', 'r', 'b', 'br'])
     dseed = rng.choice([0, rng.randint(1, 10 ** 6), rng.randint(1, 10 ** 6)])
     fseed = rng.choice([0, 0, rng.randint(1, 10 ** 6)])
     return threads, lo, hi, mode, dseed, fseed
@@ -267,7 +267,7 @@ def shard(desc):
         n = len(xs)
         ctx = '(n=%d%s, %d threads, min_len=%s max_len=%s, by %s, delay seed %d)' % (
             n, (' kept of %d by a filter stage' % c.meta['n']) if c.meta['filter_seed'] else '', c.meta['threads'],
-            c.meta['min_len'] or '-', c.meta['max_len'] or '-', 'reference' if c.meta['mode'] == 'r' else 'value', c.meta['delay_seed'])
+            c.meta['min_len'] or '-', c.meta['max_len'] or '-', ('reference' if c.meta['mode'] in ('r', 'br') else 'value') + (' via par_bridge' if c.meta['mode'] in ('b', 'br') else ''), c.meta['delay_seed'])
         if c.meta['filter_seed']:
             res.count('collects_with_filter_stage', len(marks))
         results = set()
@@ -277,7 +277,9 @@ def shard(desc):
                 continue
             res.count('parallel_collects')
             res.count('collects_threads_%d' % c.meta['threads'])
-            res.count('collects_by_%s' % ('ref' if c.meta['mode'] == 'r' else 'value'))
+            res.count('collects_by_%s' % ('ref' if c.meta['mode'] in ('r', 'br') else 'value'))
+            if c.meta['mode'] in ('b', 'br'):
+                res.count('collects_from_par_bridge')
             if c.meta['delay_seed']:
                 res.count('collects_with_delay_injection')
             nt = judge_result(t, xs, r.kv, res, c, variant, ctx, memo, dkey)
@@ -465,7 +467,7 @@ def run(tier, seed):
             miri_leg(seed, 16, total)
     except common.Inconclusive as e:
         total.inconclusive.append(str(e))
-    need = {'ramp_collects': 4, 'parallel_collects': 300, 'probe_collects': 100, 'tree_replays': 50, 'collects_with_multiple_leaves': 50,
+    need = {'collects_from_par_bridge': 50, 'ramp_collects': 4, 'parallel_collects': 300, 'probe_collects': 100, 'tree_replays': 50, 'collects_with_multiple_leaves': 50,
             'collects_with_filter_stage': 50, 'trees_with_empty_into_empty_merge': 5,
             'collects_with_delay_injection': 50, 'collects_by_ref': 50, 'collects_by_value': 50, 'distinct_merge_trees': 20}
     if tier == 'thorough':
